@@ -97,6 +97,8 @@ impl NodeController {
             .collect();
         self.sync_peer_addrs_from_metadata().await;
         tracing::debug!("update_leases node={} leases={:?}", self.node_id, expected);
+        #[cfg(feature = "verif")]
+        crate::verif_events::sched_point("ctl_before_lease_update");
         self.bucket.update_leases(&expected).await;
     }
 
@@ -487,6 +489,8 @@ impl NodeController {
             new_leader: next_leader,
             sealed_segment_entry_count: count,
         };
+        #[cfg(feature = "verif")]
+        crate::verif_events::sched_point("ctl_before_rollover_propose");
         self.propose_metadata(cmd).await?;
         Ok(())
     }
